@@ -17,6 +17,13 @@ RANGES = dict(
 )
 
 
+# narrower geometry for multi-step simulations with active channels and nA-scale stimuli:
+# keeps voltages in a range where the reference kinetics (unclipped exponentials) stay finite
+RANGES_DYN = dict(
+    radius=(0.5, 10.0), length=(5.0, 200.0), axial_resistivity=(50.0, 5000.0), capacitance=(0.5, 2.0)
+)
+
+
 def log_uniform(lo, hi):
     return st.floats(np.log10(lo), np.log10(hi)).map(lambda e: float(10.0**e))
 
@@ -56,14 +63,14 @@ def n_compartments(cells):
 
 
 @st.composite
-def comp_values(draw, cells, key, mode=None):
+def comp_values(draw, cells, key, mode=None, ranges=None):
     """Per-compartment values of one parameter: uniform / per branch / per compartment."""
     N = n_compartments(cells)
     default = DEFAULTS[key]
     if key == "v":
         one = st.floats(-100.0, 40.0)
     else:
-        one = log_uniform(*RANGES[key])
+        one = log_uniform(*(ranges or RANGES)[key])
     mode = mode or draw(st.sampled_from(["default", "uniform", "branch", "comp", "comp"]))
     if mode == "default":
         return [default] * N
@@ -81,7 +88,7 @@ def comp_values(draw, cells, key, mode=None):
 
 @st.composite
 def morphology(draw, tier="quick", kinds=("compartment", "branch", "cell", "cell", "network"),
-               max_branches=None, max_ncomp=None, max_cells=None, with_v=True):
+               max_branches=None, max_ncomp=None, max_cells=None, with_v=True, ranges=None):
     kind = draw(st.sampled_from(list(kinds)))
     mb = max_branches or (8 if tier == "quick" else 12)
     mn = max_ncomp or (4 if tier == "quick" else 8)
@@ -112,7 +119,7 @@ def morphology(draw, tier="quick", kinds=("compartment", "branch", "cell", "cell
             cells = [draw(cell_struct(max(1, mb // 2), mn)) for _ in range(nc)]
     spec = {"kind": kind, "cells": cells}
     for key in ("radius", "length", "axial_resistivity", "capacitance"):
-        spec[key] = draw(comp_values(cells, key))
+        spec[key] = draw(comp_values(cells, key, ranges=ranges))
     if with_v:
         spec["v"] = draw(comp_values(cells, "v"))
     return spec
